@@ -907,10 +907,20 @@ class Interp(object):
             e = self.make_exn(st[1])
             self.g(c)
             self.shadow_msg(c, 2, [], ser=None)
-            try:
+            marker = object()
+
+            def thrower():
+                kept_local = marker
                 raise e
-            except BaseException:
+            try:
+                thrower()
+            except BaseException as caught:
                 self.call("write_traceback", el.write_traceback)
+                tb = caught.__traceback__
+                while tb is not None and tb.tb_frame.f_code.co_name != "thrower":
+                    tb = tb.tb_next
+                if tb is None or tb.tb_frame.f_locals.get("kept_local") is not marker:
+                    self.notes.append("caller_dict_mutated:write_traceback() wiped the local variables of the frames on the traceback")
         elif k == "handoff":
             _, h, slot, h2, c2, body, via = st
             from eliot import Action, preserve_context
@@ -1664,6 +1674,15 @@ CORPUS_FEATURES = [
               ["try", [["act", 3, "with", False, 10, [[19, {"i": 3}]], None, [[19, {"i": 3}]],
                         [["reenter", 3, [["raise", _E(1)]], "context"]], "start_action"]]],
               ["msg", 13, [[33, {"i": 8}]], None, "log_message"]]},
+    # an exception escapes `with action.context():` / action.run() INSIDE the action's block and is caught there: the action
+    # itself goes on and ends normally
+    {"classes": [], "registry": [], "pre": _D1,
+     "prog": [["act", 1, "with", False, 10, [[19, {"i": 1}]], None, [[26, {"i": 1}], [19, {"i": 1}]],
+               [["try", [["reenter", 1, [["msg", 12, [[33, {"i": 1}]], None, "log_message"], ["raise", _E(1)]], "context"]]],
+                ["msg", 12, [[33, {"i": 2}]], None, "log_message"],
+                ["try", [["reenter", 1, [["raise", _E(2, 9, 102)]], "run"]]],
+                ["msg", 12, [[33, {"i": 3}]], None, "log_message"]], "start_action"],
+              ["msg", 13, [[33, {"i": 4}]], None, "log_message"]]},
     # an action that starts and ends normally while an unrelated exception is being handled
     {"classes": [], "registry": [], "pre": _D1,
      "prog": [["handler", [["act", 1, "with", False, 10, [[19, {"i": 1}]], None, [[26, {"i": 1}], [19, {"i": 1}]],
